@@ -388,7 +388,7 @@ def encoder_corpus(pid):
 
 def quota_corpus(pid):
     """BOUNDED stand-in for the unverified metering glue (utils.rs decode_args_with_config_debug, de.rs check_subtype /
-    recoverable_visit_some / deserialize_with_type): for 8 messages with surplus arguments, surplus fields, a mismatched
+    recoverable_visit_some / deserialize_with_type): for 10 messages with surplus arguments, surplus fields, a mismatched
     option, zero-sized vectors and function references the measured cost must not depend on the quotas supplied, a quota
     pair equal to the measured cost must reproduce the unmetered result, and every smaller decoding quota must fail
     with a QUOTA error (never another error, never a different value)."""
@@ -413,7 +413,10 @@ def quota_corpus(pid):
                         "expected": exp, "got": got[:300], "replay_cmd": f"echo '{cmd}' | {exe}"}})
 
     BIG1, BIG2 = 10 ** 9, 2 * 10 ** 9 + 7
-    for case in range(8):
+    # C07 "the cost is at least the number of values materialised or skipped (zero-sized elements are not free)":
+    # least (decoding, skipping) cost per message = number of values it carries / of values that are skipped
+    MIN_COST = {1: (302, 301), 8: (200, 200), 9: (21, 20)}
+    for case in range(10):
         base = run([f"q {case} - -", f"q {case} {BIG1} {BIG1}", f"q {case} {BIG2} {BIG2}"])
         nvec += 3
         if not all(b.startswith("ok ") for b in base):
@@ -431,6 +434,8 @@ def quota_corpus(pid):
             fail(case, f"q {case} {BIG2} {BIG2}", f"the same cost {costs[0]} as under quotas {BIG1}", str(costs[1]))
             continue
         cd, cs = costs[0]
+        if case in MIN_COST and (cd < MIN_COST[case][0] or cs < MIN_COST[case][1]):
+            fail(case, f"q {case} {BIG1} {BIG1}", f"a cost of at least {MIN_COST[case]} (one unit per value decoded or skipped)", str((cd, cs)))
         exact = run([f"q {case} {cd} {cs}"])[0]
         nvec += 1
         if not exact.startswith("ok ") or exact[3:].split(" | ")[0] != val:
@@ -448,7 +453,7 @@ def quota_corpus(pid):
             "cmds": [f"{exe} < quota corpus (bounded stand-in)"],
             "backends": ["BOUNDED stand-in (real decoder under quota sweeps; not a proof)"], "samples": [],
             "bounded_standins": [{"functions": ["utils.rs decode_args_with_config_debug", "de.rs check_subtype / recoverable_visit_some / deserialize_with_type (metering glue)"],
-                                  "bound": "8 fixed messages (surplus args/fields, mismatched opt, vec null, func references); quotas: none, two generous pairs, "
+                                  "bound": "10 fixed messages (surplus args/fields, mismatched opt, vec null, func references, 200 / 20 surplus arguments of type null / reserved -- these and the vec null message with a least cost of one unit per value); quotas: none, two generous pairs, "
                                            "exactly the measured cost, every decoding quota in [cost-260, cost) and a coarse sweep below",
                                   "vectors": nvec, "disagreements": len(failures), "labelled": "bounded, NOT proved",
                                   "wall_s": round(time.time() - t0, 1)}]}
